@@ -83,6 +83,8 @@ def check(ctx):
             parts = rx.decode_fmt_template(tpls[0])
             lits = "".join(p[1] if p[0] == "lit" else "{}" for p in parts)
             order = display_arg_fields(facts, cl)
+            # placeholders name their argument (implicitly previous + 1, or explicitly): read the fields in placeholder order
+            order = [order[p[1]] for p in parts if p[0] == "arg" and p[1] < len(order)]
             ok = lits.startswith("Trans({}, {}, {}, {})") and order == ["from_state", "term", "to_state", "prod_num"]
             ctx.check(ok, "R21.1", "%s|trans-template-order" % fn,
                       "template %r is filled with (from_state, term, to_state, prod_num)" % lits,
